@@ -345,6 +345,8 @@ fn sde(w: &[&str]) -> String {
         "arr2tup" => go!([(u8, u8); 2], |v: [(u8, u8); 2]| format!("[[{},{}],[{},{}]]", v[0].0, v[0].1, v[1].0, v[1].1)),
         "any" => go!(AnyShape, |v: AnyShape| v.0),
         "ignored" => go!(serde::de::IgnoredAny, |_| "()".to_string()),
+        "picky" => go!(Picky, |v: Picky| v.0),
+        "picky2" => go!((Picky, Picky), |v: (Picky, Picky)| format!("[{},{}]", (v.0).0, (v.1).0)),
         "opt_tup" => go!(Option<(u8, u8)>, |v: Option<(u8, u8)>| match v { None => "N".to_string(), Some(x) => format!("S([{},{}])", x.0, x.1) }),
         _ => "bad-op".into()
     }
@@ -387,6 +389,20 @@ impl<'de> serde::de::Visitor<'de> for AnyVisitor {
 
 impl<'de> serde::Deserialize<'de> for AnyShape {
     fn deserialize<D: serde::Deserializer<'de>>(d: D) -> Result<Self, D::Error> { d.deserialize_any(AnyVisitor) }
+}
+
+/// a selective visitor behind `deserialize_any`: a number or a name, everything else is refused with serde's default
+/// `Error::invalid_type` (the one place where the error of a refusal is made by the bridge's `de::Error` impl, not by the decoder)
+struct Picky(String);
+struct PickyVisitor;
+impl<'de> serde::de::Visitor<'de> for PickyVisitor {
+    type Value = Picky;
+    fn expecting(&self, f: &mut core::fmt::Formatter) -> core::fmt::Result { f.write_str("a number or a name") }
+    fn visit_u64<E>(self, v: u64) -> Result<Picky, E> { Ok(Picky(format!("u{}", v))) }
+    fn visit_str<E>(self, v: &str) -> Result<Picky, E> { Ok(Picky(format!("s{}", hex(v.as_bytes())))) }
+}
+impl<'de> serde::Deserialize<'de> for Picky {
+    fn deserialize<D: serde::Deserializer<'de>>(d: D) -> Result<Self, D::Error> { d.deserialize_any(PickyVisitor) }
 }
 
 /// serialises through `Serializer::collect_str` (which needs `alloc`: documented)
